@@ -36,6 +36,14 @@ CHECKS = {
             "and REPL sessions (replace_locals / release_orphan_locals), down to quantum 1; results are compared with the value the "
             "mechanism model assigns (ContentPreserved); refcount assertion panics are recorded as data.",
             RT_NOTE + " Reachability is recomputed by the harness from Process fields, not by reachable_heap_indices.", RT_TECH),
+    "C14": ("runtime", "model_checking",
+            "The mechanism model includes the environment's ownership table, the effect request/completion protocol and a backend "
+            "registry; TLC checks ClosedAtExit / BackendCallsLegal / OwnerKnown exhaustively on resource scenarios (open, use, explicit "
+            "close, handle sent in a message, captured by a spawn nested in a tuple, left in a mailbox, owner awaited or not); the "
+            "real Environment runs the same scenarios against an instrumented in-memory EffectBackend and the TLA+ monitor keeps its "
+            "own ownership map (as the property defines it) and judges every backend call: UseOnlyByOwner, NeverReachesBackend, "
+            "NoCloseWhileOwnerAlive, ClosedExactlyOnceAtExit.",
+            RT_NOTE + " The backend is the harness's SimBackend (quiver-io's io_uring backend is not exercised).", RT_TECH),
     "C15": ("runtime", "model_checking",
             "Same engine on failure scenarios (failure before/while/after being awaited, awaiter that timed out, chains, two awaiters, "
             "forbidden operations in filters): FailureContained, AwaitersFail, ResultStable, NoInternalError, NoWorkerCrash (panics and "
@@ -60,7 +68,7 @@ CHECKS = {
 }
 
 ENGINES = [
-    {"name": "runtime", "path": "engines/runtime.py", "serves_properties": ["C03", "C04", "C05", "C06", "C15"],
+    {"name": "runtime", "path": "engines/runtime.py", "serves_properties": ["C03", "C04", "C05", "C06", "C14", "C15"],
      "kind_free_text": "TLC exhaustive model checking of spec/Runtime.tla (and spec/Heap.tla) per scenario family + recorded executions "
                        "of the real Environment/Workers (harness `sim`) judged by the TLA+ property monitor spec/RuntimeObs.tla and "
                        "validated against the mechanism model by spec/RuntimeTrace.tla"},
